@@ -39,6 +39,9 @@ HERE = os.path.dirname(os.path.dirname(os.path.dirname(os.path.abspath(__file__)
 
 
 # (function of gffutils/create.py, number of leading distinct statements at which an importer is parked)
+# what the forking parent did with the library before it forked its importers
+PARENT_ACTIONS = ["set_pragmas journal_mode=WAL", "set_pragmas query_only=ON", "switch toggled and restored", "update and delete",
+                  "failed import"]
 PARK_FUNCTIONS = [("_update_relations", 30), ("_finalize", 10), ("_populate_from_lines", 8)]
 
 
@@ -81,6 +84,15 @@ _PATTERNS = set()
 _PARKS = set()
 
 
+def file_state(path):
+    """What a finished import leaves on disk besides content: journal mode recorded in the file, side files next to it."""
+    side = sorted(sfx for sfx in ("-wal", "-shm", "-journal") if os.path.exists(path + sfx))
+    with open(path, "rb") as fh:
+        head = fh.read(20)
+    # bytes 18/19 of the header: file format write/read version (1 = rollback journal, 2 = WAL)
+    return {"side_files": side, "format_versions": [head[18], head[19]] if len(head) >= 20 else None}
+
+
 def solitary(ctx, root, text, from_string):
     """Content dump of a solitary import of this input (done in this process, with its own temp directory)."""
     import gffutils
@@ -99,8 +111,9 @@ def solitary(ctx, root, text, from_string):
             db = gffutils.create_db(inp, out)
         db.conn.close()
         dump = dbdump.dump(out)
+        dump["file_state"] = file_state(out)
     finally:
-        for p in (inp, out):
+        for p in (inp, out, out + "-wal", out + "-shm", out + "-journal"):
             if os.path.exists(p):
                 os.unlink(p)
     _solo_cache[key] = dump
@@ -147,6 +160,11 @@ def imports(ctx, case):
                 # separate output files that share a basename (one directory per run)
                 os.makedirs(os.path.join(outdir, "run%d" % i))
                 out_db = os.path.join(outdir, "run%d" % i, "annotation.db")
+            elif case.get("prefix_names"):
+                # output names that are prefixes of one another, each over a stale file, all imported with force=True
+                out_db = os.path.join(outdir, "ann.db" if i == 0 else ("ann.db.bak" if i == 1 else "ann.db.v%d" % i))
+                with open(out_db, "wb") as fh:
+                    fh.write(b"stale")
             else:
                 out_db = os.path.join(outdir, "out%d.db" % i)
             a = {"role": "importer", "input": inp, "out_db": out_db,
@@ -154,6 +172,11 @@ def imports(ctx, case):
                  "from_string": case["from_string"], "offset_ms": rng.randrange(0, 51), "barrier_timeout": 30}
             if case.get("failer") and case["barrier"]:
                 a["wait_marker"] = os.path.join(bdir, "failer.done")
+            if case.get("prefix_names"):
+                a["force"] = True
+            if case.get("late_starter") and i == 0:
+                # importer 0 only starts once all the others are in the middle of their imports
+                a["start_after_arrivals"] = N - 1
             if case.get("park"):
                 # importer 0 is parked at a statement of the named function until importer 1 has finished completely
                 if i == 0:
@@ -171,7 +194,9 @@ def imports(ctx, case):
         if case.get("forkpool"):
             # one parent interpreter that has already imported and used gffutils forks all N importers
             pf = os.path.join(outdir, "args_pool.json")
-            json.dump({"role": "forkpool", "children": [a for _, a, _ in procs], "result": os.path.join(outdir, "res_pool.json")}, open(pf, "w"))
+            os.makedirs(os.path.join(root, "parent"))
+            json.dump({"role": "forkpool", "children": [a for _, a, _ in procs], "result": os.path.join(outdir, "res_pool.json"),
+                       "parent_dir": os.path.join(root, "parent"), "parent_actions": case.get("parent_actions", [])}, open(pf, "w"))
             parent = spawn(pf, tmpdir)
             procs = [(i, a, parent) for i, a, _ in procs]
         failer = None
@@ -230,7 +255,17 @@ def imports(ctx, case):
                 return
         for i, (r, solo) in enumerate(zip(results, solos)):
             ctx.mon("outputs compared with solitary import")
-            d = dbdump.diff(solo, dbdump.dump(procs[i][1]["out_db"]))
+            out_db = procs[i][1]["out_db"]
+            if not os.path.exists(out_db):
+                ctx.violation(case, {"why": "an importer finished without error but its output database is not there", "importer": i,
+                                     "output": os.path.basename(out_db), "directory": sorted(os.listdir(os.path.dirname(out_db)))[:12]})
+                return
+            fs = file_state(out_db)
+            if fs != solo["file_state"]:
+                ctx.violation(case, {"why": "on-disk state of the output differs from a solitary import's (journal mode / side files)",
+                                     "importer": i, "got": fs, "solitary": solo["file_state"]})
+                return
+            d = dbdump.diff(solo, dbdump.dump(out_db))
             if d:
                 ctx.violation(case, {"why": "database produced under concurrency differs from the solitary import", "importer": i, "diff": d})
                 return
@@ -317,6 +352,10 @@ def imports(ctx, case):
                 ctx.mon("park point not reached (function has fewer statements)")
         if case.get("forkpool"):
             ctx.mon("runs with importers forked from one parent that had already used gffutils")
+            for act in case.get("parent_actions", []):
+                ctx.mon("forking parent had used the library: " + act)
+        if case.get("prefix_names"):
+            ctx.mon("runs with prefix-related output names over stale files, force=True and a late starter")
         case["_overlap"] = overlap
         case["_pattern"] = sorted(pattern)
         pk = (N, tuple(sorted(pattern)))
@@ -437,7 +476,7 @@ def run(ctx):
     # relations), a failing import next to healthy ones
     for rep in range(reps):
         for N in ([2, 4, 8] if ctx.tier == "quick" else [2, 4, 8, 16, 24]):
-            for variant in ("same_basename", "flat", "failer"):
+            for variant in ("same_basename", "flat", "failer", "prefix_names"):
                 for mix in ("gff3+gtf", "different"):
                     i += 1
                     if not ctx.mine(i):
@@ -447,6 +486,8 @@ def run(ctx):
                     fmts = {"different": ["gff3"], "gff3+gtf": ["gff3", "gtf"]}[mix]
                     case = {"kind": "imports", "n": N, "fmts": fmts, "seeds": [rng.randrange(10 ** 6) for _ in range(N)], "size": 3,
                             "from_string": False, "barrier": True, variant: True}
+                    if variant == "prefix_names":
+                        case["late_starter"] = True
                     execute(ctx, case)
                     ov = case.pop("_overlap", 0)
                     pat = case.pop("_pattern", [])
@@ -463,7 +504,8 @@ def run(ctx):
                     continue
                 fmts = {"different": ["gff3"], "gff3+gtf": ["gff3", "gtf"], "gtf": ["gtf"]}[mix]
                 case = {"kind": "imports", "n": N, "fmts": fmts, "seeds": [rng.randrange(10 ** 6) for _ in range(N)], "size": 3,
-                        "from_string": False, "barrier": True, "forkpool": True}
+                        "from_string": False, "barrier": True, "forkpool": True,
+                        "parent_actions": rng.sample(PARENT_ACTIONS, rng.randrange(0, 3))}
                 execute(ctx, case)
                 ov = case.pop("_overlap", 0)
                 pat = case.pop("_pattern", [])
@@ -513,7 +555,7 @@ MANIFEST = {
             "hold a live intermediate file, so the overlap is observed, not hoped for; runs without the barrier and with random "
             "start offsets are added. Every temp path each process opens/creates/removes is logged by an audit hook and checked "
             "offline together with an independent inotify log; each output is compared with a solitary import through plain "
-            "sqlite3. Reader processes read a finished database simultaneously while an import runs beside them. Variants: outputs sharing a basename in different directories, flat inputs without second-level relations, a deliberately failing neighbour import released while the healthy ones hold their intermediate files, imports of ~2*10^5 features, and a look into the directory while each importer process is still alive; readers also run region/limit queries.",
+            "sqlite3. Reader processes read a finished database simultaneously while an import runs beside them. Variants: outputs sharing a basename in different directories, flat inputs without second-level relations, a deliberately failing neighbour import released while the healthy ones hold their intermediate files, imports of ~2*10^5 features, and a look into the directory while each importer process is still alive; readers also run region/limit queries. Importers are also forked (os.fork) from one parent interpreter that has already used the library (set_pragmas, update/delete, a failed import, the escape switch toggled and restored); one importer is parked at each of the first statements of _update_relations/_finalize/_populate_from_lines while a neighbour import starts, runs and finishes; outputs whose names are prefixes of one another are imported with force=True over stale files with one late starter; the journal mode and side files of each output are compared with a solitary import's.",
     "note": "Trusted: the OS scheduler only for the free-running class; CPython audit events for open/remove/mkstemp. Evidence "
             "reports the maximum number of simultaneously live intermediate files actually seen.",
 }
